@@ -224,6 +224,14 @@ def stage_race(ctx, e):
         with open(os.path.join(node.root, "acq", "f.dat"), "wb") as f:
             f.write(b"race")
         verif_idext.MODE[:] = ["first", 1]
+        other = None
+        if rng.random() < 0.6:
+            # the acquisition already holds another, earlier registered file (with or without a copy on this node)
+            acq0 = w.acq("acq")
+            other = w.file(acq0, "e.dat", b"earlier")
+            if rng.random() < 0.5:
+                w.copy(other, node, has="Y", wants="Y", on_disk=b"earlier")
+        other_before = None if other is None else [(c.has_file, c.wants_file) for c in db.ArchiveFileCopy.select().where(db.ArchiveFileCopy.file == other.id)]
         nw = rng.choice([2, 2, 3])
         reqs = [db.ArchiveFileImportRequest.create(node=node, path="acq/f.dat", recurse=False, register=True) for _ in range(nw)]
         qs = [FairMultiFIFOQueue() for _ in range(nw)]
@@ -285,15 +293,25 @@ def stage_race(ctx, e):
             for t in ths:
                 t.join(timeout=2)
         d = envmod.dump_index()
-        ncopy = len([c for c in d["copy"] if c[2] == node.id])
+        newfile = db.ArchiveFile.get_or_none(db.ArchiveFile.name == "f.dat")
+        mine = [c for c in d["copy"] if c[2] == node.id and newfile is not None and c[1] == newfile.id]
+        ncopy = len(mine)
         done_reqs = sum(1 for r in d["ireq"] if r[5])
-        has = d["copy"][0][3] if d["copy"] else None
+        has = mine[0][3] if mine else None
+        extra_probs = []
+        if other is not None:
+            other_after = [(c.has_file, c.wants_file) for c in db.ArchiveFileCopy.select().where(db.ArchiveFileCopy.file == other.id)]
+            if other_after != other_before:
+                extra_probs.append(f"importing acq/f.dat changed the copy records of another file of the acquisition (acq/e.dat): "
+                                   f"{other_before} -> {other_after}")
         ctx.count(f"race:workers={nw}:final={has}")
         ctx.case(("race", nw, tuple(schedule)), nontrivial=True,
                  sample={"workers": nw, "schedule(statement granularity)": schedule, "final_copy": d["copy"], "acqs": d["acq"]} if len(ctx.samples) < 6 and has == "M" else None)
-        probs = []
-        if len(d["acq"]) != 1 or len(d["file"]) != 1 or ncopy != 1:
-            probs.append(f"{len(d['acq'])} acquisition, {len(d['file'])} file, {ncopy} copy records after {nw} concurrent imports")
+        probs = list(extra_probs)
+        nfiles_expected = 1 + (1 if other is not None else 0)
+        if len(d["acq"]) != 1 or len(d["file"]) != nfiles_expected or ncopy != 1:
+            probs.append(f"{len(d['acq'])} acquisition, {len(d['file'])} file records (expected {nfiles_expected}), {ncopy} copy records of the "
+                         f"imported file after {nw} concurrent imports")
         if has not in ("Y", "M"):
             probs.append(f"final copy state {has}")
         if any(state["exc"]):
